@@ -422,7 +422,7 @@ pub fn c09_exhaustive(tier: &str, acc: &mut Acc) -> Value {
 pub const META_C12: Meta = Meta {
     id: "C12",
     level: "exploration",
-    rule: "Each case takes one generated valid program (accepted by the crate in the same run, so a rejection is due to the edit) and applies every applicable instance of 16 single grammar-breaking edit operators, working on token spans found by the harness tokenizer: M1 delete a block's `end loop`/`end while`; M2 swap `end loop`<->`end while`, bare `end`, `end repeat`; M3 insert `end loop`/`end while` at top level; M4 delete / append one row entry, bits(k+-1,..); M5 delete one `;` `)` `(` `,`; M6 unknown function name, one argument more / fewer; M7 replace a literal by 2^63 / 2^64 in decimal, hex, binary, octal; M8 bits(k,..) with k in {65,100,255,256,10^6} and k+256, k+512, k+2^16, k+2^32; M9 duplicate a header name, duplicate a declare; M10 header only, no line break; M11 truncate at every token boundary at block depth > 0 or strictly inside a statement; M12 more tokens on the same line after a complete statement (`let a = 1; 1 0`, `end loop 1`), `end loopx`; M13 letters glued to a number; M14 a comma where none belongs - dangling before the closing parenthesis, leading after the opening one, doubled, or an empty argument list - in calls of random / ite / signExt and in bits( loop( repeat( while(; M15 one argument too many / too few in bits( loop( repeat( while(; M16 damaged let / declare heads (no name, a number as name, two names, no `=`, `= =`); 1.5% of the cases are instead wide headers (34-300 names) in which one name is repeated at positions around 32 / 64 / 128 / 256 or at the far end, adjacent or far apart, the column count staying right, and 0.8% narrow headers that repeat a LONG name (63-300 bytes, ASCII or multi-byte) - each in three endings {as is, trailing newline added, trailing newlines removed} and in LF and CRLF. A mutant counts only if it is invalid by construction AND the independent recogniser refparse rejects it (so a mistake in either cannot alarm alone); then from_str must return Err. Ok = violation; a panic is C09's business and only counted. Non-trivial = a confirmed-invalid mutant of an accepted parent, distinct by text.",
+    rule: "Each case takes one generated valid program (accepted by the crate in the same run, so a rejection is due to the edit) and applies every applicable instance of 16 single grammar-breaking edit operators, working on token spans found by the harness tokenizer: M1 delete a block's `end loop`/`end while`; M2 swap `end loop`<->`end while`, bare `end`, `end repeat`; M3 insert `end loop`/`end while` at top level; M4 delete / append one row entry, bits(k+-1,..); M5 delete one `;` `)` `(` `,`; M6 unknown function name, one argument more / fewer; M7 replace a literal by 2^63 / 2^64 in decimal, hex, binary, octal; M8 bits(k,..) with k in {65,100,255,256,10^6} and k+256, k+512, k+2^16, k+2^32; M9 duplicate a header name, duplicate a declare; M10 header only, no line break; M11 truncate at every token boundary at block depth > 0 or strictly inside a statement; M12 more tokens on the same line after a complete statement (`let a = 1; 1 0`, `end loop 1`), `end loopx`; M13 letters glued to a number; M14 a comma where none belongs - dangling before the closing parenthesis, leading after the opening one, doubled, or an empty argument list - in calls of random / ite / signExt and in bits( loop( repeat( while(; M15 one argument too many / too few in bits( loop( repeat( while(; M16 damaged let / declare heads (no name, a number as name, two names, no `=`, `= =`); 1.5% of the cases are instead wide headers (34-300 names) in which one name is repeated at positions around 32 / 64 / 128 / 256 or at the far end, adjacent or far apart, the column count staying right, and 0.8% narrow headers that repeat a LONG name (63-300 bytes, ASCII or multi-byte) - each in three endings {as is, trailing newline added, trailing newlines removed} and in LF and CRLF. A mutant counts only if it is invalid by construction AND the independent recogniser refparse rejects it (so a mistake in either cannot alarm alone); then from_str must return Err. Ok = violation; a panic is C09's business and only counted. M6 also adds 256 and 65536 arguments to a call (a count kept in 8 / 16 bits comes round to the right arity). 0.6% of the cases are bits(k, e) with k = 65..300 in rows whose length is right (header of k+0..2 one-bit columns), so the width alone makes the text invalid. M9 also copies a declare to the end of the program and to right behind the header. Non-trivial = a confirmed-invalid mutant of an accepted parent, distinct by text.",
     assumptions: &["refparse.rs (recogniser written from the grammar as stated in C08/C12) confirms invalidity", "harness tokenizer reflex.rs locates tokens"],
     quick_cases: 8000,
     thorough_cases: 200000,
@@ -551,6 +551,14 @@ fn mutants(text: &str, r: &mut Prng) -> Vec<Mutant> {
                 }
                 push("M6-unknown-function", splice(t.start, t.end, "rnd"), &mut out);
                 push("M6-extra-argument", splice(toks[i + 1].end, toks[i + 1].end, "1,"), &mut out);
+                // 256 (65536) arguments more: an argument count kept in a u8 (u16) would come round
+                // to the right arity again (after seeded change V-C12-agent19-3)
+                if r.chance(1, 3) {
+                    push("M6-256-extra-arguments", splice(toks[i + 1].end, toks[i + 1].end, &"1,".repeat(256)), &mut out);
+                }
+                if r.chance(1, 40) {
+                    push("M6-65536-extra-arguments", splice(toks[i + 1].end, toks[i + 1].end, &"1,".repeat(65536)), &mut out);
+                }
                 if w != "random" {
                     // drop the first argument up to and including its comma (top-level comma)
                     let mut d = 0;
@@ -661,6 +669,14 @@ fn mutants(text: &str, r: &mut Prng) -> Vec<Mutant> {
             if j < toks.len() {
                 let stmt = &text[t.start..toks[j].end];
                 push("M9-duplicate-declare", splice(toks[j].end, toks[j].end, &format!("\n{stmt}")), &mut out);
+                // ... and far from the original: at the very end of the program and right behind
+                // the header, with whatever other declarations lie between the two (after seeded
+                // change X-C12-agent21-4: duplicates looked for among neighbours only)
+                push("M9-duplicate-declare-at-the-end", format!("{}\n{stmt}\n", text.trim_end_matches(['\n', '\r', ' ', '\t'])), &mut out);
+                if let Some(nl) = text[names.last().unwrap().2..].find('\n') {
+                    let at = names.last().unwrap().2 + nl + 1;
+                    push("M9-duplicate-declare-behind-the-header", splice(at, at, &format!("{stmt}\n")), &mut out);
+                }
             }
         }
     }
@@ -767,9 +783,53 @@ fn c12_long_name_duplicates(case_seed: u64, r: &mut Prng, acc: &mut Acc) {
     acc.nontrivial.insert(crate::prng::hash_bytes(format!("long-dup-{unit}-{case_seed}").as_bytes()));
 }
 
+/// bits(k, e) with k just above 64 in a row whose LENGTH is right: the header is wide enough for
+/// the k one-bit entries, so only the width itself makes the text invalid (survivor of the
+/// operator-mutation sweep: `n > 64` -> `n > 65` in the parser; the narrow M8 mutants are also
+/// refused for their row length).
+fn c12_wide_bits(case_seed: u64, r: &mut Prng, acc: &mut Acc) {
+    for k in [65usize, 66, 67, 70, 100, 128, 129, 255, 256, 257, 300] {
+        let extra = r.below(3);
+        let n = k + extra;
+        let header: Vec<String> = (0..n).map(|i| format!("I{i}")).collect();
+        let tail = " 1".repeat(extra);
+        let e = *r.pick(&["5", "(1 << 63) + 1", "a", "0 - 1"]);
+        let at_end = extra > 0 && r.chance(1, 2);
+        let row = if at_end { format!("{}bits({k}, {e})", "1 ".repeat(extra)) } else { format!("bits({k}, {e}){tail}") };
+        for body in [format!("let a = 3;\n{row}\n"), format!("let a = 3;\nloop(i,2)\n{row}\nend loop\n"), format!("let a = 3;\nrepeat(2) {row}\n")] {
+            let text = format!("{}\n{body}", header.join(" "));
+            if refparse::recognise(&text).is_ok() {
+                acc.tag("mutant_not_confirmed_invalid_(skipped)");
+                continue;
+            }
+            // the same text with a width of 64 is a valid test: the width is the only defect
+            acc.evaluations += 1;
+            acc.distinct.insert(crate::prng::hash_bytes(text.as_bytes()));
+            match guarded(|| ParsedTestCase::from_str(&text)) {
+                Err(_) => acc.tag("observation:parser_panic_on_mutant_(C09)"),
+                Ok(Err(_)) => acc.tag("rejected:M8-wide-bits-in-a-row-of-the-right-length"),
+                Ok(Ok(_)) => {
+                    acc.violation(
+                        case_seed,
+                        "M8-wide-bits",
+                        Finding::new("accepted-malformed:M8-wide-bits", format!("bits({k}, ..) is accepted in a row whose length is right ({n} columns)")),
+                        json!({"text": text}),
+                    );
+                    return;
+                }
+            }
+        }
+    }
+    acc.held += 1;
+    acc.nontrivial.insert(crate::prng::hash_bytes(format!("wide-bits-{case_seed}").as_bytes()));
+}
+
 pub fn c12(case_seed: u64, acc: &mut Acc) {
     let mut r = Prng::new(case_seed);
     acc.cases += 1;
+    if r.chance(6, 1000) {
+        return c12_wide_bits(case_seed, &mut r, acc);
+    }
     if r.chance(15, 1000) {
         return c12_wide_duplicates(case_seed, &mut r, acc);
     }
@@ -845,7 +905,7 @@ pub fn c12(case_seed: u64, acc: &mut Acc) {
 pub const META_C20: Meta = Meta {
     id: "C20",
     level: "exploration",
-    rule: "Metamorphic monitor: a base text (generated programs of profiles flow / expr / expand / random-free, plus a pool of token-boundary hazards: identifiers looper end1 bitsy letx, 0x1F next to an identifier, a<<b, a< <b (invalid), a!=b, a! =b (invalid)) and 4 (quick) / 8 (thorough) re-laid-out variants composed at random from: change every blank run between tokens to 1-4 of {space, tab, CR}; delete blank runs where the harness tokenizer certifies the neighbours do not fuse; append # comments (with #, non-ASCII, CR) to lines after the header; insert blank / comment-only lines after the header; LF -> CRLF; rewrite integer literals in another radix / letter case with the same value. 2% of the cases are instead a radix family: one number at the edge of the 64-bit range (2^62 .. 2^64+1000) spelled in decimal, hex (both letter cases, with leading zeros), binary and octal inside three program shapes - from_str must give the same verdict for every spelling, and the same rows where it accepts. Every variant is certified by re-tokenising: its token sequence (kinds + lexemes, numbers by value, blank lines collapsed) must equal the base's, otherwise it is discarded and counted. Oracle: accepted/rejected verdicts equal; every item of the two row streams equal (inputs incl. changed, outputs, expected, errors), except that `line` must be shifted by exactly the number of lines inserted above that row. Non-trivial = variant differs from its base in >= 3 places and the base yields >= 2 rows or is rejected after a valid header.",
+    rule: "Metamorphic monitor: a base text (generated programs of profiles flow / expr / expand / random-free, plus a pool of token-boundary hazards: identifiers looper end1 bitsy letx, 0x1F next to an identifier, a<<b, a< <b (invalid), a!=b, a! =b (invalid)) and 4 (quick) / 8 (thorough) re-laid-out variants composed at random from: change every blank run between tokens to 1-4 of {space, tab, CR}; delete blank runs where the harness tokenizer certifies the neighbours do not fuse; append # comments (with #, non-ASCII, CR) to lines after the header; insert blank / comment-only lines after the header; LF -> CRLF; rewrite integer literals in another radix / letter case with the same value. 2% of the cases are instead a radix family: one number at the edge of the 64-bit range (2^62 .. 2^64+1000) spelled in decimal, hex (both letter cases, with leading zeros), binary and octal inside three program shapes - from_str must give the same verdict for every spelling, and the same rows where it accepts. Every variant is certified by re-tokenising: its token sequence (kinds + lexemes, numbers by value, blank lines collapsed) must equal the base's, otherwise it is discarded and counted. Oracle: accepted/rejected verdicts equal; every item of the two row streams equal (inputs incl. changed, outputs, expected, errors), except that `line` must be shifted by exactly the number of lines inserted above that row. Two of the five radix-family shapes put a unary minus in front of the literal, each spelling also with blank space behind the minus. Non-trivial = variant differs from its base in >= 3 places and the base yields >= 2 rows or is rejected after a valid header.",
     assumptions: &["the harness tokenizer decides what `the same token sequence` means"],
     quick_cases: 40000,
     thorough_cases: 1000000,
@@ -1056,12 +1116,22 @@ fn c20_radix_family(case_seed: u64, r: &mut Prng, acc: &mut Acc) {
         format!("0b000{v:b}"),
         format!("00{v:o}"),
     ];
-    let shape = r.below(3);
+    // shapes 3 and 4 put a unary minus in front of the literal (a literal of 2^63 does not
+    // become valid by that, in any radix and with or without blank space behind the minus; after
+    // seeded change X-C20-agent21-8, which read `-9223372036854775808` off the source text)
+    let shape = r.below(5);
     let text = |lit: &str| match shape {
         0 => format!("A Q\n{lit} X\n1 X\n"),
         1 => format!("A Q\n({lit} >> 60) X\n1 X\n"),
+        3 => format!("A Q\n(-{lit}) X\n1 X\n"),
+        4 => format!("A Q\nlet a = -{lit};\n(a >> 56) X\n"),
         _ => format!("A Q\nlet a = {lit};\n(a & 0xFF) X\n"),
     };
+    let mut spellings = spellings;
+    if shape >= 3 {
+        let gaps: Vec<String> = spellings.iter().take(5).flat_map(|s| [format!(" {s}"), format!("\t{s}"), format!("  \t {s}")]).collect();
+        spellings.extend(gaps);
+    }
     let sigs = vec![Sig { name: "A".into(), bits: 64, kind: SigKind::In(InVal::V(0)) }, Sig { name: "Q".into(), bits: 64, kind: SigKind::Out }];
     let script = Script { layout: vec![1], values: ValueFn::Unique { salt: 3, narrow: false }, faults: vec![], override_write: false, rebuild_signals: false };
     let opts = RunOpts { max_steps: 20, probe_after_end: 0, stop_at_error: true, seed: Some(1), continue_on: None };
